@@ -59,7 +59,7 @@ theorem Replaced.edgeOk {ctx : Ctx} {g g' : Graph} {n : Nat} {nd nd' : Node} (r 
 theorem inv_export {ctx : Ctx} {g g' : Graph} {n : Nat} {name : Str} {nd nd' : Node}
     (h : Inv ctx g) (hfresh : alGet g.exports name = none) (hnd : g.node? n = some nd)
     (hsim : NodeSim nd nd') (hname : nd'.name = nd.name)
-    (hexp : (nd.isDef = true ∧ nd'.exp = nd.exp) ∨ (nd.isDef = false ∧ nd'.exp = some name))
+    (hexp : (nd.isDef = true ∧ nd'.exp = nd.exp) ∨ nd'.exp = some name)
     (hn : g'.nodes = g.nodes.set n (some nd')) (hfn : g'.freeNodes = g.freeNodes) (he : g'.edges = g.edges)
     (him : g'.imports = g.imports) (hde : g'.defined = g.defined)
     (hex : g'.exports = alInsert g.exports name n)
@@ -70,7 +70,7 @@ theorem inv_export {ctx : Ctx} {g g' : Graph} {n : Nat} {name : Str} {nd nd' : N
   have hnok := h.node hnd
   -- the new node has an export name
   have hexpSome : nd'.exp.isSome = true := by
-    rcases hexp with ⟨hd, he'⟩ | ⟨_, he'⟩
+    rcases hexp with ⟨hd, he'⟩ | he'
     · rw [he']
       obtain ⟨_, h2, _⟩ := hnok
       unfold Node.isDef at hd
@@ -85,7 +85,7 @@ theorem inv_export {ctx : Ctx} {g g' : Graph} {n : Nat} {name : Str} {nd nd' : N
   · intro m x' hx'
     rcases r.bwd hx' with ⟨rfl, rfl⟩ | ⟨hm', hx⟩
     · -- the exported node itself
-      rcases hexp with ⟨_, he'⟩ | ⟨hd, he'⟩
+      rcases hexp with ⟨_, he'⟩ | he'
       · refine hnok.mono hsim he' hp (fun e hem => by rw [he]; exact hem) (fun _ => by unfold Graph.inEdges; rw [he])
           (fun k hk => by rw [him]; exact hk) (fun k hk => by rw [hde]; exact hk) ?_
         intro k hk; rw [hex]; exact alGet_insert_other hfresh hk
@@ -111,7 +111,10 @@ theorem inv_export {ctx : Ctx} {g g' : Graph} {n : Nat} {name : Str} {nd nd' : N
             rw [hk] at h2
             simp only at h2 ⊢
             rw [him]; exact h2
-          | definition ty => simp [Node.isDef, hk] at hd
+          | definition ty =>
+            rw [hk] at h2
+            simp only at h2 ⊢
+            rw [hde]; exact ⟨h2.1, hexpSome⟩
         · intro nm hnm
           rw [he'] at hnm
           simp only [Option.mem_def, Option.some.injEq] at hnm
@@ -164,20 +167,26 @@ theorem inv_exportNode {ctx : Ctx} {g g' : Graph} {n : Nat} {name : Str} {out : 
         rw [← hs.1]
         cases hk : nd.kind with
         | definition ty =>
-          refine inv_export (nd' := nd) h hfresh hnd (NodeSim.refl _) rfl (Or.inl ⟨by simp [Node.isDef, hk], rfl⟩)
-            ?_ rfl rfl rfl rfl rfl rfl rfl rfl
-          simp [Graph.setNode, hk]
+          cases hr : ctx.exportRenamesDefinition with
+          | false =>
+            refine inv_export (nd' := nd) h hfresh hnd (NodeSim.refl _) rfl (Or.inl ⟨by simp [Node.isDef, hk], rfl⟩)
+              ?_ rfl rfl rfl rfl rfl rfl rfl rfl
+            simp [Graph.setNode, hk, hr]
+          | true =>
+            refine inv_export (nd' := { nd with exp := some name }) h hfresh hnd ⟨rfl, rfl, rfl⟩ rfl
+              (Or.inr rfl) ?_ rfl rfl rfl rfl rfl rfl rfl rfl
+            simp [Graph.setNode, hk, hr]
         | instantiation sat =>
           refine inv_export (nd' := { nd with exp := some name }) h hfresh hnd ⟨rfl, rfl, rfl⟩ rfl
-            (Or.inr ⟨by simp [Node.isDef, hk], rfl⟩) ?_ rfl rfl rfl rfl rfl rfl rfl rfl
+            (Or.inr rfl) ?_ rfl rfl rfl rfl rfl rfl rfl rfl
           simp [Graph.setNode, hk]
         | alias =>
           refine inv_export (nd' := { nd with exp := some name }) h hfresh hnd ⟨rfl, rfl, rfl⟩ rfl
-            (Or.inr ⟨by simp [Node.isDef, hk], rfl⟩) ?_ rfl rfl rfl rfl rfl rfl rfl rfl
+            (Or.inr rfl) ?_ rfl rfl rfl rfl rfl rfl rfl rfl
           simp [Graph.setNode, hk]
         | «import» nm =>
           refine inv_export (nd' := { nd with exp := some name }) h hfresh hnd ⟨rfl, rfl, rfl⟩ rfl
-            (Or.inr ⟨by simp [Node.isDef, hk], rfl⟩) ?_ rfl rfl rfl rfl rfl rfl rfl rfl
+            (Or.inr rfl) ?_ rfl rfl rfl rfl rfl rfl rfl rfl
           simp [Graph.setNode, hk]
 
 end Wac.Graph
